@@ -475,9 +475,12 @@ func RunConc(out string) {
 								rbase = b.Base()
 							}
 							logEv("ret", tr.M{"g": g + 1, "op": "get", "r": rid, "rbase": rbase})
-							if rid > 0 {
-								own = append(own, rid)
-							}
+							// a block obtained by Get is not put again by this goroutine: FIFO.Get leaves a used
+							// block in the cache, from where a Put of another goroutine may receive it as evicted;
+							// two goroutines putting one block object is not a use the contract covers (the reader
+							// is a single client), and CacheP's environment assumption (Put only of a block the
+							// caller holds and the cache does not) excludes it
+							_ = rid
 						case k < 8:
 							base := bases[r.Intn(3)]
 							logEv("call", tr.M{"g": g + 1, "op": "peek", "base": base})
